@@ -26,13 +26,15 @@ def register(db):
         f"{P}.skip", params={"self": parser, "char": "str"}, requires=WF + ["len(char) == 1"],
         ensures=[("advances-one", "self.vidx == old(self.vidx) + 1"),
                  ("matched", "self.value[old(self.vidx):old(self.vidx) + 1] == char")] + KEEP,
-        raises={"ValueError": "self.value[self.vidx:self.vidx + 1] != char"},
+        raises={"ValueError": "self.value[old(self.vidx):old(self.vidx) + 1] != char"},
         modifies=["self.vidx"], properties=PR,
     ))
     db.add(Contract(
         f"{P}.parse_digits", params={"self": parser, "digits": "int"}, requires=WF + ["digits >= 0"],
-        ensures=[("advances", "self.vidx == old(self.vidx) + digits")] + KEEP,
-        raises={"ValueError": True}, returns="int", modifies=["self.vidx"], properties=PR,
+        ensures=[("advances", "self.vidx == old(self.vidx) + digits"),
+                 ("value-of-the-slice", "result == py_int(self.value[old(self.vidx):old(self.vidx) + digits])"),
+                 ("slice-is-a-numeral", "py_int_ok(self.value[old(self.vidx):old(self.vidx) + digits])")] + KEEP,
+        raises={"ValueError": "not py_int_ok(self.value[old(self.vidx):old(self.vidx) + digits])"}, returns="int", modifies=["self.vidx"], properties=PR,
     ))
     db.add(Contract(
         f"{P}.parse_minimum_digits", params={"self": parser, "min_digits": "int"}, requires=WF + ["min_digits >= 0"],
@@ -53,7 +55,7 @@ def register(db):
     db.add(Contract(
         f"{P}.parse_year", params={"self": parser}, requires=WF,
         ensures=[("never-moves-back", "self.vidx >= old(self.vidx)")] + KEEP,
-        raises={"ValueError": True, "IndexError": "self.vidx >= self.vlen"}, returns="int", modifies=["self.vidx"],
+        raises={"ValueError": True, "IndexError": "old(self.vidx) >= self.vlen"}, returns="int", modifies=["self.vidx"],
         properties=PR,
     ))
     db.add(Contract(
@@ -68,6 +70,8 @@ def register(db):
         raises={"ValueError": True}, returns="int|None", modifies=["self.vidx"], properties=PR,
     ))
 
+    register_acceptance(db)
+    register_acceptance_2(db)
     FROM = [
         ("XmlDate", ["valid_date(result.year, result.month, result.day)"]),
         ("XmlTime", ["valid_time(result.hour, result.minute, result.second, result.fractional_second)"]),
@@ -128,4 +132,64 @@ def register(db):
             f"{DT}:XmlDateTime.{name}", params={"self": xml_datetime, "other": xml_datetime},
             requires=["1 <= self.month and self.month <= 12", "1 <= other.month and other.month <= 12"],
             ensures=[("agrees-with-timeline", f"result == ({D_SELF} {sym} {D_OTHER})")], raises={}, properties=["C06"],
+        ))
+
+
+def register_acceptance(db):
+    """Acceptance direction of the scanner leaves: on an input whose next token is the XSD lexical form of a
+    component, the leaf consumes exactly that token and returns the component."""
+    PR = ["C06"]
+    HERE = ["self.value == head + tok + rest", "self.vidx == len(head)"] + WF
+    db.add(Contract(
+        f"{P}.parse_digits", variant="accepts-two-digits",
+        params={"self": parser, "digits": 2},
+        ghost={"head": "str", "tok": "str", "rest": "str", "k": "int"},
+        requires=HERE + ["0 <= k and k <= 99", "tok == pad(k, 2)"],
+        hints=["substr_at(self.value, head, tok, rest)", "int_of_digits(tok)"],
+        ensures=[("component-value", "result == k"), ("consumes-the-token", "self.vidx == len(head) + 2")] + KEEP,
+        raises={}, properties=PR,
+    ))
+    db.add(Contract(
+        f"{P}.skip", variant="accepts-the-separator",
+        params={"self": parser, "char": "str"},
+        ghost={"head": "str", "rest": "str"},
+        requires=["self.value == head + char + rest", "self.vidx == len(head)", "len(char) == 1"] + WF,
+        hints=["substr_at(self.value, head, char, rest)"],
+        ensures=[("consumes-the-separator", "self.vidx == len(head) + 1")] + KEEP,
+        raises={}, properties=PR,
+    ))
+
+
+def register_acceptance_2(db):
+    PR = ["C06"]
+    HERE = ["self.vidx == len(head)"] + WF
+    # ---------------------------------------------------------------- timezone
+    db.add(Contract(
+        f"{P}.parse_offset", variant="accepts-no-timezone",
+        params={"self": parser}, requires=WF + ["self.vidx == self.vlen"],
+        ensures=[("absent", "result is None"), ("cursor-stays", "self.vidx == old(self.vidx)")] + KEEP,
+        raises={}, properties=PR,
+    ))
+    db.add(Contract(
+        f"{P}.parse_offset", variant="accepts-Z",
+        params={"self": parser}, ghost={"head": "str", "rest": "str"},
+        requires=HERE + ["self.value == head + 'Z' + rest"],
+        hints=["substr_at(self.value, head, 'Z', rest)"],
+        ensures=[("utc", "result == 0"), ("consumes-the-token", "self.vidx == len(head) + 1")] + KEEP,
+        raises={}, properties=PR,
+    ))
+    for name, sign, factor in (("plus", "+", 1), ("minus", "-", -1)):
+        db.add(Contract(
+            f"{P}.parse_offset", variant=f"accepts-{name}-hh-mm",
+            params={"self": parser}, ghost={"head": "str", "rest": "str", "hh": "int", "mm": "int"},
+            requires=HERE + [f"self.value == head + '{sign}' + pad(hh, 2) + ':' + pad(mm, 2) + rest",
+                             "0 <= hh and hh <= 99 and 0 <= mm and mm <= 99"],
+            hints=[f"substr_at(self.value, head, '{sign}', pad(hh, 2) + ':' + pad(mm, 2) + rest)",
+                   f"substr_at(self.value, head + '{sign}', pad(hh, 2), ':' + pad(mm, 2) + rest)",
+                   f"substr_at(self.value, head + '{sign}' + pad(hh, 2), ':', pad(mm, 2) + rest)",
+                   f"substr_at(self.value, head + '{sign}' + pad(hh, 2) + ':', pad(mm, 2), rest)",
+                   "int_of_digits(pad(hh, 2))", "int_of_digits(pad(mm, 2))"],
+            ensures=[("offset-in-minutes", f"result == {factor} * (60 * hh + mm)"),
+                     ("consumes-the-token", "self.vidx == len(head) + 6")] + KEEP,
+            raises={}, properties=PR,
         ))
